@@ -241,6 +241,67 @@ def r1_reducer(F, r):
         r.fail("evaluate_all: fold", "the fold step does not pass its accumulator as the alternative: earlier results of the chunk are dropped", F.loc(ev[0], t["ln"]))
 
 
+def a1_accumulator_threaded(F, r):
+    """the fold step of insertion evaluation never drops the best result found so far: every value it returns is the incoming `alternative` or the selector's
+    choice between the alternative and a new candidate"""
+    ev = F.find1("evaluators::eval_job_insertion_in_route")
+    fn = F.fns[ev]
+    alt = [int(k) for k, v in fn["names"].items() if v == "alternative" and int(k) <= fn["argc"]]
+    if not alt:
+        alt = [i for i in range(1, fn["argc"] + 1) if fn["locals"][i].endswith("InsertionResult")]
+    if len(alt) != 1:
+        raise AnchorError("eval_job_insertion_in_route: the incoming best-so-far parameter was not found")
+    alt = alt[0]
+    defs = mir.defs(fn).get(0, [])
+    if not defs:
+        raise AnchorError("eval_job_insertion_in_route: no definition of the return value")
+    n = 0
+    for d in defs:
+        n += 1
+        if d[0] == "s":
+            st = d[3]
+            ok = st["r"]["k"] == "use" and any(k == "arg" and v == alt and not p for k, v, p in mir.trace(fn, st["r"]["o"][0], through_calls=()))
+            ln = st.get("ln")
+            what = "returns the incoming alternative unchanged"
+        else:
+            t = d[2]
+            ok = t["callee"].endswith("::select_insertion") and any(any(k == "arg" and v == alt and not p for k, v, p in mir.trace(fn, a, through_calls=())) for a in t["args"])
+            ln = t["ln"]
+            what = "selector's choice between the alternative and the new candidate"
+        inst = f"eval_job_insertion_in_route: return#{n}"
+        if ok:
+            r.ok(inst, what)
+        else:
+            r.fail(inst, "this exit returns a result that does not involve the incoming `alternative`: the best insertion found so far in the same fold chunk is dropped, so the outcome depends on "
+                   "how (route, job) pairs are split over threads", F.loc(ev, ln))
+
+
+def n1_cpus_independent_of_layout(F, r):
+    """the CPU count that sizes populations / selections does not depend on the thread-pool layout (non-interference in Parallelism::new)"""
+    PN = "rosomaxa::utils::environment::Parallelism"
+    ctors = [i for i in F.fns if i.startswith(PN + "::new") and F.fns[i]["kind"] != "Closure" and "::promoted[" not in i and i.split("::")[-1] == "new"]
+    if len(ctors) != 1:
+        raise AnchorError(f"Parallelism::new resolves to {ctors}")
+    fn = F.fns[ctors[0]]
+    aggs = [st for _, _, st in mir.stmts(fn) if st["r"]["k"] == "agg" and st["r"].get("n", "").startswith(PN + "#")]
+    if not aggs:
+        raise AnchorError("Parallelism::new: no construction")
+    for st in aggs:
+        fs = st["r"].get("fs") or []
+        if "available_cpus" not in fs:
+            raise AnchorError("Parallelism.available_cpus")
+        o = st["r"]["o"][fs.index("available_cpus")]
+        leaves, calls = mir.deep_leaves(fn, o)
+        dep = sorted({fn["names"].get(str(v), f"arg{v}") for k, v, p in leaves if k == "arg"})
+        if dep:
+            r.fail("Parallelism::new: available_cpus", f"the reported CPU count depends on the pool layout ({', '.join(dep)}): population and selection sizes — and with a zero product the "
+                   "very construction of the solver — vary with the parallelism configuration", F.loc(ctors[0], st.get("ln")))
+        elif any(c.endswith("get_cpus") for c in calls):
+            r.ok("Parallelism::new: available_cpus", "get_cpus() only: independent of (num_thread_pools, threads_per_pool)")
+        else:
+            r.fail("Parallelism::new: available_cpus", "the reported CPU count no longer comes from get_cpus()", F.loc(ctors[0], st.get("ln")))
+
+
 def run(ctx):
     ctx.explanation = (
         "Effect reachability over the CHA call graph from eval_job_insertion_in_route under the deterministic configuration (BestResultSelector, "
@@ -253,4 +314,11 @@ def run(ctx):
                         "ties between equal-cost successes may be resolved differently per layout (property speaks about the cost vector)"]
     ctx.run("C15-P1", "purity: no nondeterministic effect reachable from insertion evaluation under the deterministic configuration", p1_purity, floor=4)
     ctx.run("C15-P2", "closures run by parallel primitives are shared Fn closures without mutable or interior-mutable captures", p2_sharing, floor=5)
+    ctx.run("C15-N1", "the CPU count used for sizing is independent of the pool layout", n1_cpus_independent_of_layout, floor=1)
+    ctx.run("C15-A1", "the fold step never drops the best-so-far: every exit returns the alternative or select_insertion(alternative, candidate)", a1_accumulator_threaded, floor=3)
+    try:
+        from . import c09
+        ctx.run("C09-I1", "the reducer's cost order is a total order (lexicographic fold of total_cmp): needed for an associative, split-independent reduction", c09.i1_insertion_cost_order, floor=9)
+    except (ImportError, AttributeError):
+        pass
     ctx.run("C15-R1", "reducer returns a success whenever one exists and a minimal-cost one of two successes; evaluate_all wiring", r1_reducer, floor=14)
